@@ -12,11 +12,32 @@ import (
 	"verif/harness/vlib"
 )
 
-// TestKnownNilComponent observes the catalogued finding C08-nil-component-panic: a proof in
-// which a component nested inside a commitment / response (below the level whose presence the
-// compilers' UnmarshalCBOR checks) is CBOR null makes Verify dereference a nil pointer instead
-// of returning an error. Every (sub)tree of a few small proofs is replaced by null in turn.
-func TestKnownNilComponent(t *testing.T) {
+// Catalogued findings of C08 (proposed ids; the lead decides on the catalogue). Each rule names
+// EXACTLY the inputs that are excluded from TestNITamper / TestHeavy; each finding is observed
+// by a TestKnown* regression test through vlib.Known.
+const (
+	// A component nested inside a commitment / response (below the level whose presence the
+	// compilers' UnmarshalCBOR checks) that is CBOR null or missing is dereferenced by Verify.
+	knownNilComponent = "C08-nil-component-panic"
+	// A direct-power element (Okamoto response, ElGamal statement-shaped commitments) decoded with
+	// fewer components than the protocol's arity is indexed out of range by Verify.
+	knownArityPanic = "C08-component-count-panic"
+)
+
+func matchKnown(in inst, cn compiler.Name, m mutation, violation, panicMsg string) string {
+	switch {
+	case violation == "panic" && strings.Contains(panicMsg, "nil pointer dereference") && (m.op == "null" || m.op == "map-drop"):
+		return knownNilComponent
+	case violation == "panic" && strings.Contains(panicMsg, "index out of range") && strings.Contains(m.class, "components") &&
+		(m.op == "null" || m.op == "map-drop" || m.op == "arr-trunc"):
+		return knownArityPanic
+	}
+	return ""
+}
+
+// TestKnownPanics observes C08-nil-component-panic and C08-component-count-panic: every
+// (sub)tree of a few small proofs is replaced by null, and every array is shortened by one, in turn.
+func TestKnownPanics(t *testing.T) {
 	if k, _ := vlib.Shard(); k != 0 {
 		t.Skip("observed by shard 0")
 	}
@@ -31,12 +52,14 @@ func TestKnownNilComponent(t *testing.T) {
 		{spec{Kind: "orc(S,O)", Group: "k256", Seed: 4, WClass: "rnd", Gen: "std", N: 2}, fiatshamir.Name},
 		{spec{Kind: "batch-schnorr", Group: "k256", Seed: 5, WClass: "rnd", Gen: "std", N: 2}, fiatshamir.Name},
 		{spec{Kind: "elog", Group: "k256", Seed: 6, WClass: "rnd", Gen: "std", N: 2}, fiatshamir.Name},
-		{spec{Kind: "schnorr", Group: "k256", Seed: 7, WClass: "rnd", Gen: "std", N: 2}, fiatshamir.Name},
-		{spec{Kind: "schnorr", Group: "k256", Seed: 8, WClass: "rnd", Gen: "std", N: 2}, fischlin.Name},
-		{spec{Kind: "andc(S,O)", Group: "k256", Seed: 9, WClass: "rnd", Gen: "std", N: 2}, fischlin.Name},
+		{spec{Kind: "okamoto", Group: "k256", Seed: 7, WClass: "rnd", Gen: "std", N: 2}, fiatshamir.Name},
+		{spec{Kind: "elcomop", Group: "k256", Seed: 8, WClass: "rnd", Gen: "std", N: 2}, fiatshamir.Name},
+		{spec{Kind: "schnorr", Group: "k256", Seed: 9, WClass: "rnd", Gen: "std", N: 2}, fiatshamir.Name},
+		{spec{Kind: "schnorr", Group: "k256", Seed: 10, WClass: "rnd", Gen: "std", N: 2}, fischlin.Name},
+		{spec{Kind: "andc(S,O)", Group: "k256", Seed: 11, WClass: "rnd", Gen: "std", N: 2}, fischlin.Name},
 	}
-	var hits []string
-	sites, accepted := 0, 0
+	hits := map[string][]string{}
+	sites := 0
 	for _, pr := range probes {
 		in := buildSpec(pr.sp)
 		cs := ctxSpec{Seed: pr.sp.Seed}
@@ -47,26 +70,39 @@ func TestKnownNilComponent(t *testing.T) {
 		}
 		seen := map[string]bool{}
 		for i, s := range walk(root) {
-			if s.parent == nil || s.isKey || s.idx < 0 || seen[s.class] {
-				continue
-			}
-			seen[s.class] = true
-			r2, _ := decodeTree(proof)
-			s2 := walk(r2)[i]
-			*s2.n = node{major: 7, ai: 22}
-			mutated := r2.encode()
-			ctxV, _ := cs.build(verifierID)
-			sites++
-			var verr error
-			if msg := panicsNilDeref(func() { verr = in.Verify(pr.cn, ctxV, 1, "", false, mutated, false) }); msg != "" {
-				hits = append(hits, fmt.Sprintf("%s/%s:%s", pr.sp.Kind, pr.cn, s.class))
-			} else if verr == nil {
-				accepted++
-				t.Errorf("TAMPER: %v under %s: null at %s was ACCEPTED", pr.sp, pr.cn, s.path)
+			for _, op := range []string{"null", "arr-trunc"} {
+				if s.parent == nil || s.isKey || s.idx < 0 || seen[op+s.class] || (op == "arr-trunc" && (s.n.major != 4 || len(s.n.kids) == 0)) {
+					continue
+				}
+				seen[op+s.class] = true
+				r2, _ := decodeTree(proof)
+				s2 := walk(r2)[i]
+				if op == "null" {
+					*s2.n = node{major: 7, ai: 22}
+				} else {
+					s2.n.kids = s2.n.kids[:len(s2.n.kids)-1]
+				}
+				m := mutation{op: op, class: s.class, path: s.path, bytes: r2.encode()}
+				ctxV, _ := cs.build(verifierID)
+				sites++
+				var verr error
+				msg, stack := catchPanic(func() { verr = in.Verify(pr.cn, ctxV, 1, "", false, m.bytes, false) })
+				switch {
+				case msg != "":
+					id := matchKnown(in, pr.cn, m, "panic", msg)
+					if id == "" {
+						t.Errorf("TAMPER: %v under %s: %s at %s PANICKED (not catalogued): %s\n%s", pr.sp, pr.cn, op, s.path, msg, stack)
+						continue
+					}
+					hits[id] = append(hits[id], fmt.Sprintf("%s/%s/%s:%s", pr.sp.Kind, pr.cn, op, s.class))
+				case verr == nil:
+					t.Errorf("TAMPER: %v under %s: %s at %s was ACCEPTED", pr.sp, pr.cn, op, s.path)
+				}
 			}
 		}
 	}
-	sort.Strings(hits)
-	vlib.Known(knownNilComponent, len(hits) > 0, fmt.Sprintf("%d of %d null placements panic with a nil pointer dereference in Verify: %s", len(hits), sites, strings.Join(hits, "; ")))
-	vlib.Note(fmt.Sprintf("%s: nil-dereference sites: %s", knownNilComponent, strings.Join(hits, "; ")))
+	for _, id := range []string{knownNilComponent, knownArityPanic} {
+		sort.Strings(hits[id])
+		vlib.Known(id, len(hits[id]) > 0, fmt.Sprintf("%d of %d null / shortened-array placements in 11 small proofs make Verify panic: %s", len(hits[id]), sites, strings.Join(hits[id], "; ")))
+	}
 }
